@@ -65,6 +65,11 @@ def isEnvLabel : Label → Bool
   | .broadcast => false
   | _ => true
 
+/-- `start` contains `c.m.RLock(); ch := c.ch; c.m.RUnlock()`: it waits while a writer holds `c.m` -/
+def readsCur : Label → Bool
+  | .start _ => true
+  | _ => false
+
 def setCall (fs : FState) (j : Nat) (c : CallT) : FState := { fs with calls := fs.calls.set j c }
 
 /-- one statement of call `j` (`c` = its record, `rest` = what remains after this statement) -/
@@ -98,7 +103,7 @@ def opStep (cfg : Cfg) (fs : FState) (j : Nat) (c : CallT) (to : Option Nat) : O
 def fstep (cfg : Cfg) (fs : FState) : FLabel → Option FState
   | .env l =>
     if fs.panicked || !isEnvLabel l then none
-    else if (match l with | .start _ => fs.writer | _ => false) then none
+    else if readsCur l && fs.writer then none
     else (step cfg fs.base l).map fun b => { fs with base := b }
   | .call sig =>
     if fs.panicked then none
@@ -123,13 +128,10 @@ inductive FReach (cfg : Cfg) : FState → Prop where
   | init (k : Nat) : FReach cfg (finit cfg k)
   | step {fs fs' : FState} (l : FLabel) : FReach cfg fs → fstep cfg fs l = some fs' → FReach cfg fs'
 
-/-- a `Broadcast` call has closed the current channel and not yet installed the fresh one -/
-def isMid (fs : FState) : Bool := fs.calls.any fun c => c.todo == [.install, .mUnlock]
-
 /-- the state of the atomic LTS a fine state stands for: in the middle of a `Broadcast` (current channel
 closed, fresh one not yet installed) it is the state *after* that `Broadcast` -/
 def absOf (cfg : Cfg) (fs : FState) : State :=
-  if isMid fs then
+  if (chanAt fs.base fs.base.cur).closed then
     { fs.base with chans := fs.base.chans ++ [{ cap := cfg.capB, buf := 0, closed := false }],
                    cur := fs.base.chans.length }
   else fs.base
